@@ -312,7 +312,7 @@ def constructors_demand_collect(chk, prog, c, rule="constructors-demand-collect-
         for f in prog.fn_n.get("arena::Arena::" + m, []):
             n += 1
             hr = [p["s"] for p in f["predicates"]
-                  if _re.match(r"^for<(\'\w+)> <%s as arena::Rootable<\1>>::Root: collect::Collect<\1>$" % produced, p["s"])]
+                  if _re.match(r"^for<(\'\w+)> <%s as (?:\w+::)*Rootable<\1>>::Root: (?:\w+::)*Collect<\1>$" % produced, p["s"])]
             chk.inst(rule, "arena::Arena::%s[%s]" % (m, c), bool(hr),
                      detail="`Arena::%s` builds an arena around a root of type `Root<'_, %s>` without requiring it to be "
                             "Collect for every brand (its Collect predicates: %s): a 'static-only root type turns the brand "
